@@ -105,6 +105,27 @@ def long_graph(r, k, G, start, n):
     r.maxi('long_strand_nt', n)
 
 
+def many_errors(r, k, G, start, m):
+    """Strands with m isolated errors and a check supplied: whatever path the repair takes, every
+    candidate it hands back must reproduce the check."""
+    from .C10 import long_strand, sparse_strand
+    acc = U.A(G)
+    for s in (long_strand(k, G, start, m), sparse_strand(k, G, start, m)[0]):
+        for chk in (O.vt(s[::-1], 3), O.vt(s, 3), O.vt(s, 5)[:-1] + 'A'):
+            for indel in (False, True):
+                any_case(r, k, G, acc, start, s, chk, indel)
+        any_case(r, k, G, acc, start, s, None, True)
+    r.ctr['many_error_strands'] += 2
+    r.states += 2
+
+
+def _w_many(chunk):
+    r = core.Res()
+    for k, G, start, m in chunk:
+        many_errors(r, k, G, start, m)
+    return r
+
+
 def _w_long(args):
     r = core.Res()
     k, G, start, n = args
@@ -155,7 +176,16 @@ def run(ctx):
             for n in ((40,) if q else (40, 120)):
                 jobs.append((k, G, st_, n))
     ctx.pmap(_w_long, jobs)
-    ctx.bounds = {'long_strands': '%d (filter graph of order 2-5, start) pairs: clean rule walks of %s nt, and double edits on an offset grid' % (len(jobs), '40' if q else '40/120'),
+    from ..coder import LITERAL
+    from .C03 import tiny_closed_sets
+    mg = [(2, [list(x) for x in LITERAL], 1), (1, O.from_mask({0, 1}, 1), 0)]
+    S3 = tiny_closed_sets(3)[0]
+    mg.append((3, O.from_mask(O.gfp(S3, 3, 1), 3), 0))
+    mj = [(k, G, st_, m) for k, G, st_ in mg for m in list(range(1, 12)) + [16, 17, 18, 20, 25, 33, 40, 64, 65]]
+    ctx.pmap(_w_many, core.chunks_of(mj, 3))
+    ctx.guard('many-error strands', ctx.res.ctr['many_error_strands'] > 50)
+    ctx.bounds = {'many_errors': 'strands with m isolated errors, m in 1..11,16,17,18,20,25,33,40,64,65, with matching and non-matching checks',
+                  'long_strands': '%d (filter graph of order 2-5, start) pairs: clean rule walks of %s nt, and double edits on an offset grid' % (len(jobs), '40' if q else '40/120'),
                   'lengths': 'k..n with n = %s' % n_by_k, 'graphs': {'order1': len(fam), 'order2_binary': len(fam2), 'filter_k2_k3': len(fam3)},
                   'clean_options': str(OPTS_A), 'checks': 'absent / correct / wrong (clean walks); absent, own, and the check of every single-substitution neighbour (arbitrary strings)'}
     ctx.rule = ('clean: one case = (graph, start, walk, check kind, indel, heap): result is exactly [walk] (or [] iff the supplied check '
